@@ -54,6 +54,20 @@ use internal::{
 use pointer::KanalPtr;
 use signal::*;
 
+/// Returns the deadline of a timed operation that starts now.
+///
+/// `Duration::MAX` is the usual way to ask for "no limit", and `Instant`
+/// cannot represent a point that far away: instead of panicking, a deadline
+/// that does not fit is moved to 30 years from now.
+#[inline(always)]
+fn deadline_after(duration: Duration) -> Instant {
+    let now = Instant::now();
+    match now.checked_add(duration) {
+        Some(deadline) => deadline,
+        None => now + Duration::from_secs(86400 * 365 * 30),
+    }
+}
+
 /// Sending side of the channel with sync API. It's possible to convert it to
 /// async [`AsyncSender`] with `as_async`, `to_async` or `clone_async` based on
 /// software requirement.
@@ -809,7 +823,7 @@ impl<T> Sender<T> {
     /// ```
     #[inline(always)]
     pub fn send_timeout(&self, data: T, duration: Duration) -> Result<(), SendErrorTimeout> {
-        let deadline = Instant::now().checked_add(duration).unwrap();
+        let deadline = deadline_after(duration);
         let mut internal = acquire_internal(&self.internal);
         if internal.recv_count == 0 {
             let send_count = internal.send_count;
@@ -901,7 +915,7 @@ impl<T> Sender<T> {
         if data.is_none() {
             panic!("send data option is None");
         }
-        let deadline = Instant::now().checked_add(duration).unwrap();
+        let deadline = deadline_after(duration);
         let mut internal = acquire_internal(&self.internal);
         if internal.recv_count == 0 {
             let send_count = internal.send_count;
@@ -1203,7 +1217,7 @@ impl<T> Receiver<T> {
     /// Tries receiving from the channel within a duration
     #[inline(always)]
     pub fn recv_timeout(&self, duration: Duration) -> Result<T, ReceiveErrorTimeout> {
-        let deadline = Instant::now().checked_add(duration).unwrap();
+        let deadline = deadline_after(duration);
         let mut internal = acquire_internal(&self.internal);
         if internal.recv_count == 0 {
             return Err(ReceiveErrorTimeout::Closed);
